@@ -3,7 +3,7 @@
 
    Backend mutexes are independent of the BalanceRR lock, so a concurrent SetAvail / IncConnNum / DecConnNum
    may change what any Avail() / ConnNum() read returns while Balance holds the list lock.  The oracle is a
-   "script": a list of flip-sets; after every Avail() read performed by the algorithm the next flip-set is
+   "script": a list of flip-sets; after every Avail() / ConnNum() read performed by the algorithm the next flip-set is
    applied to the dynamic fields (avail, connNum) of arbitrary backends.  Because the scan order is
    deterministic, every infinite-then-constant stream of read results is realised by some script.
    Update / SetAvail / conn changes between calls are atomic steps (they take the same lock / happen between calls).
@@ -80,6 +80,14 @@ Definition positions (s : dyn) : list nat := seq 0 (length (fst s)).
 
 (* ---- leastConnsBalance ---- *)
 Definition comp_lc (a b : be) : Z := bcn a * bw b - bcn b * bw a.   (* sign as compLCWeight *)
+(* every read of a backend's dynamic fields (Avail() and ConnNum(), each under the backend's RWMutex) is followed by
+   a tick of the environment; compLCWeight(a, b) reads a.ConnNum() then b.ConnNum() *)
+Definition comp_read (s : dyn) (j i : nat) : dyn * Z :=
+  let ca := bcn (getb s j) in
+  let s1 := tick s in
+  let cb := bcn (getb s1 i) in
+  let s2 := tick s1 in
+  (s2, ca * bw (getb s i) - cb * bw (getb s j)).
 Fixpoint lc_pass1 (idx : list nat) (s : dyn) (best : option nat) (single : bool) : dyn * option nat * bool :=
   match idx with
   | [] => (s, best, single)
@@ -90,11 +98,10 @@ Fixpoint lc_pass1 (idx : list nat) (s : dyn) (best : option nat) (single : bool)
     else match best with
          | None => lc_pass1 r s1 (Some i) true
          | Some j =>
-           (* ConnNum() of both is read after the Avail() read, i.e. in state s1 *)
-           let c := comp_lc (getb s1 j) (getb s1 i) in
-           if c >? 0 then lc_pass1 r s1 (Some i) true
-           else if c =? 0 then lc_pass1 r s1 best false
-           else lc_pass1 r s1 best single
+           let '(s2, c) := comp_read s1 j i in
+           if c >? 0 then lc_pass1 r s2 (Some i) true
+           else if c =? 0 then lc_pass1 r s2 best false
+           else lc_pass1 r s2 best single
          end
   end.
 Fixpoint lc_pass2 (idx : list nat) (s : dyn) (j : nat) (acc : list nat) : dyn * list nat :=
@@ -104,8 +111,8 @@ Fixpoint lc_pass2 (idx : list nat) (s : dyn) (j : nat) (acc : list nat) : dyn * 
     let b := getb s i in
     let s1 := tick s in
     if negb (eligible b) then lc_pass2 r s1 j acc
-    else if comp_lc (getb s1 j) (getb s1 i) =? 0 then lc_pass2 r s1 j (i :: acc)
-    else lc_pass2 r s1 j acc
+    else let '(s2, c) := comp_read s1 j i in
+         if c =? 0 then lc_pass2 r s2 j (i :: acc) else lc_pass2 r s2 j acc
   end.
 (* returns the candidate positions, or None for "all backend is down" *)
 Definition least_conns (s : dyn) : dyn * option (list nat) :=
@@ -178,7 +185,7 @@ Fixpoint simple_loop (fuel : nat) (s : dyn) (next start : Z) (all_down : bool) {
       let i := Z.to_nat next in
       let b := getb s i in
       if bav b && (bcur b >? 0) then
-        (setb s i (add_cur (-1)), move_next next n, ROk [bid b])
+        (setb (tick s) i (add_cur (-1)), move_next next n, ROk [bid b])
       else
         let s1 := tick s in           (* the probe failed; the environment may move before the next probe *)
         let all_down' := if bav b && (bw b >? 0) then false else all_down in
@@ -240,3 +247,94 @@ Definition update (conf : list (Z * Z)) (r : brr) : brr :=
 
 Definition init (conf : list (Z * Z)) : brr :=
   mkBrr (map (fun '(i, w) => mkBe i (w * 100) (w * 100) true 0) conf) 0.
+
+(* ================= BalanceGslb.Balance over the same oracle (bfe_balance/bal_gslb/bal_gslb.go) =================
+   A cluster = sub-clusters sorted by name, each with its BalanceRR, and the short-cuts computed by Init
+   (totalWeight, single, avail).  One script runs through the whole call: the flips consumed while the first
+   sub-cluster is scanned also hit the backends of the other sub-clusters (a cross retry then sees them).
+   Error codes: 3 ErrBkRetryTooMany, 4 ErrBkNoSubCluster, 5 ErrBkNoBackend, 6 ErrBkNoSubClusterCross,
+   7 ErrBkCrossRetryBalance.  No blackhole sub-cluster; the random cross choice is modelled for at most one
+   candidate (code 99 otherwise; excluded on the wire). *)
+Record gsub := mkGsub { gname : Z; gweight : Z; gbrr : brr }.
+Record gcluster := mkGc { gsubs : list gsub; gtotal : Z; gsingle : bool; gavail : Z; grmax : Z; gcross : Z }.
+
+Fixpoint ins_gsub (s : gsub) (l : list gsub) : list gsub :=
+  match l with
+  | [] => [s]
+  | x :: r => if gname s <? gname x then s :: l else x :: ins_gsub s r
+  end.
+Fixpoint glast_pos (l : list gsub) (i acc : Z) : Z :=
+  match l with
+  | [] => acc
+  | s :: r => glast_pos r (i + 1) (if gweight s >? 0 then i else acc)
+  end.
+Definition ginit (subs : list gsub) (rmax cross : Z) : gcluster :=
+  let l := fold_right ins_gsub [] subs in
+  let total := fold_right (fun s a => if gweight s >? 0 then gweight s + a else a) 0 l in
+  let cnt := Z.of_nat (length (filter (fun s => gweight s >? 0) l)) in
+  mkGc l total (cnt =? 1) (glast_pos l 0 0) rmax cross.
+
+(* subClusterBalance: index of the chosen sub-cluster for hash h *)
+Fixpoint gwalk (l : list gsub) (w : Z) (i : nat) (cur : option nat) : option nat :=
+  match l with
+  | [] => cur
+  | s :: r => if gweight s <=? 0 then gwalk r w (S i) (Some i)
+              else let w' := w - gweight s in if w' <? 0 then Some i else gwalk r w' (S i) (Some i)
+  end.
+Definition gchoose (c : gcluster) (h : Z) : option nat :=
+  if gtotal c =? 0 then None
+  else if gsingle c then (if (gavail c <? 0) || (gavail c >=? Z.of_nat (length (gsubs c))) then None
+                          else Some (Z.to_nat (gavail c)))
+  else gwalk (gsubs c) (h mod gtotal c) 0 None.
+
+(* SubCluster.balance with the running script; returns the remaining script *)
+Definition sub_balance (algo h : Z) (sc : script) (r : brr) : brr * res * script :=
+  match backends r with
+  | [] => (r, RErr 8, sc)                       (* "no backend in sub cluster": Len() == 0, nothing is read *)
+  | _ => let s : dyn := (backends r, sc) in
+         let '(s1, o) := if algo =? 2 then sticky h s
+                         else if algo =? 4 then wlc_smooth s
+                         else smooth (positions s) s in
+         (mkBrr (fst s1) (nxt r), o, snd s1)
+  end.
+(* flip-sets consumed by a scan: they also apply to every other sub-cluster *)
+Definition consumed (sc sc' : script) : script := firstn (length sc - length sc') sc.
+Definition apply_script (bs : list be) (c : script) : list be := fold_left apply_flips c bs.
+Definition gupdate (l : list gsub) (k : nat) (r' : brr) (c : script) : list gsub :=
+  map (fun p => let '(i, s) := p in
+                if Nat.eqb i k then mkGsub (gname s) (gweight s) r'
+                else mkGsub (gname s) (gweight s) (mkBrr (apply_script (backends (gbrr s)) c) (nxt (gbrr s))))
+      (combine (seq 0 (length l)) l).
+Definition gnth (l : list gsub) (k : nat) : gsub := nth k l (mkGsub 0 0 (mkBrr [] 0)).
+Definition is_ok (o : res) : bool := match o with ROk _ => true | _ => false end.
+
+(* result: cluster, outcome, name of the last sub-cluster chosen (-1 none), req.RetryTime afterwards *)
+Definition gslb_balance (algo h retry : Z) (sc : script) (c : gcluster) : gcluster * res * Z * Z :=
+  if retry >? grmax c + gcross c then (c, RErr 3, -1, retry)
+  else match gchoose c h with
+  | None => (c, RErr 4, -1, retry)
+  | Some k =>
+    let sk := gnth (gsubs c) k in
+    let attempt := retry <=? grmax c in
+    let '(l1, o1, sc1) :=
+      if attempt then
+        let '(r', o, sc') := sub_balance algo h sc (gbrr sk) in
+        (gupdate (gsubs c) k r' (consumed sc sc'), o, sc')
+      else (gsubs c, RErr 0, sc) in
+    let c1 := mkGc l1 (gtotal c) (gsingle c) (gavail c) (grmax c) (gcross c) in
+    if attempt && is_ok o1 then (c1, o1, gname sk, retry)
+    else
+      let retry' := if attempt then grmax c else retry in
+      if gcross c <=? 0 then (c1, RErr 5, gname sk, retry')
+      else
+        let cands := filter (fun j => negb (Nat.eqb j k) && (gweight (gnth l1 j) >=? 0)) (seq 0 (length l1)) in
+        match cands with
+        | [] => (c1, RErr 6, gname sk, retry')
+        | [j] =>
+          let sj := gnth l1 j in
+          let '(r', o, sc') := sub_balance algo h sc1 (gbrr sj) in
+          let c2 := mkGc (gupdate l1 j r' (consumed sc1 sc')) (gtotal c) (gsingle c) (gavail c) (grmax c) (gcross c) in
+          if is_ok o then (c2, o, gname sj, retry') else (c2, RErr 7, gname sj, retry')
+        | _ => (c1, RErr 99, gname sk, retry')
+        end
+  end.
